@@ -18,6 +18,9 @@ package kex
 
 //@ func kex.ECDHSession.UnmarshalCBOR
 //@   params s data
+//@   local err = call:cbor.Unmarshal#1 | extract1:call:crypto/ecdh.Curve.NewPrivateKey#1
+//@   local key = extract0:call:crypto/ecdh.Curve.NewPrivateKey#1
+//@   local persist = addr:Alloc#1
 //@   props C10(sweep)
 //@   sweep bounds,panic,make,nilmem,div
 
